@@ -5,14 +5,14 @@ times, the future is re-polled, `poll_read` runs again from its top — refines 
 namespace FV
 
 /-- outcome of one `AsyncRead::poll_read` of the pipe -/
-inductive AREv | pending | deliver (n : Nat) | fail
+inductive AREv | pending | deliver (n : Nat) | fail (k : Nat)
 deriving Repr, DecidableEq
 
 def eraseP : List AREv → List ReadEv
   | [] => []
   | .pending :: r => eraseP r
   | .deliver n :: r => .deliver n :: eraseP r
-  | .fail :: r => .fail :: eraseP r
+  | .fail k :: r => .fail k :: eraseP r
 
 theorem eraseP_length_le : ∀ evs : List AREv, (eraseP evs).length ≤ evs.length := by
   intro evs; induction evs with
@@ -37,7 +37,7 @@ def arecv (d : Dict) : Bool → List AREv → RBuf → Bytes → RecvOut × RBuf
       let b1 := if b.start + b.occ.length = b.cap then { b with start := 0 } else b
       match ev with
       | .pending => arecv d true evs' b1 rest          -- `ready!` returns Pending; on wake-up `poll_read` starts over
-      | .fail => (.readErr, b1, rest, evs')
+      | .fail k => (.readErr k, b1, rest, evs')
       | .deliver c =>
         let n := min (min c (b1.cap - (b1.start + b1.occ.length))) rest.length
         if n = 0 then (.closed, { b1 with occ := b1.occ ++ rest.take n }, rest.drop n, evs')
@@ -50,7 +50,7 @@ def recvRead (d : Dict) : List ReadEv → RBuf → Bytes → RecvOut × RBuf × 
   | ev :: evs', b, rest =>
     match readStep b ev rest with
     | .oom => (.oom, b, rest, ev :: evs')
-    | .err b1 => (.readErr, b1, rest, evs')
+    | .err b1 k => (.readErr k, b1, rest, evs')
     | .got b1 rest1 n => if n = 0 then (.closed, b1, rest1, evs') else recv d evs' b1 rest1
 
 theorem recv_unfold (d : Dict) (evs : List ReadEv) (b : RBuf) (rest : Bytes) :
@@ -103,7 +103,7 @@ theorem recvRead_compact (d : Dict) (evs : List ReadEv) (b : RBuf) (rest : Bytes
     simp only [recvRead, readStep_compact b ev rest h]
     cases hr : readStep b ev rest with
     | oom => exact absurd hr hne
-    | err b1 => exact ⟨rfl, rfl, rfl, rfl⟩
+    | err b1 k => exact ⟨rfl, rfl, rfl, rfl⟩
     | got b1 rest1 k => exact ⟨rfl, rfl, rfl, rfl⟩
 
 theorem agrees_mk {E : Type} (erase : List E → List ReadEv) (o : RecvOut) (b : RBuf) (r : Bytes) (es : List E) :
@@ -175,9 +175,9 @@ theorem arecv_refines (d : Dict) : ∀ (n : Nat) (evs : List AREv) (b : RBuf) (r
             simp only [eraseP]
             have := (ih evs' (compactB b) rest hn').2
             exact Agrees.trans (by simpa [compactB] using this) (recvRead_compact d (eraseP evs') b rest hoom)
-          | fail =>
-            have : readStep b .fail rest = .err (compactB b) := by unfold readStep compactB; rw [if_neg hoom]
-            have e2 : recvRead d (eraseP (.fail :: evs')) b rest = (.readErr, compactB b, rest, eraseP evs') := by
+          | fail k =>
+            have : readStep b (.fail k) rest = .err (compactB b) k := by unfold readStep compactB; rw [if_neg hoom]
+            have e2 : recvRead d (eraseP (.fail k :: evs')) b rest = (.readErr k, compactB b, rest, eraseP evs') := by
               simp only [eraseP, recvRead, this]
             rw [e2]
             exact agrees_mk eraseP _ _ _ _
